@@ -779,6 +779,11 @@ impl Resolver {
             r is Ok && stmt.kind is Definition && old(self).stack@.len() > 0 && !(stmt.kind->Definition_value.kind is Function) ==>
                 e_up(r->Ok_0->Some_0->Definition_value, r->Ok_0->Some_0->Definition_var as int), //# C09 statement.initialiser_cannot_see_the_variable_it_defines
             r is Ok && r->Ok_0 is Some ==> s_shape(r->Ok_0->Some_0), //# C07 statement.result_shape
+            r is Ok && stmt.kind is Blob ==> r->Ok_0 is Some && r->Ok_0->Some_0 is Blob, //# C07 statement.a_blob_declaration_stays_a_blob_declaration
+            r is Ok && stmt.kind is Enum ==> r->Ok_0 is Some && r->Ok_0->Some_0 is Enum, //# C07 statement.an_enum_declaration_stays_an_enum_declaration
+            r is Ok && stmt.kind is ExternalDefinition ==> r->Ok_0 is Some && r->Ok_0->Some_0 is ExternalDefinition, //# C07 statement.an_external_definition_stays_one
+            r is Ok && stmt.kind is Definition ==> r->Ok_0 is Some && r->Ok_0->Some_0 is Definition, //# C07 statement.a_definition_stays_a_definition
+            r is Ok && (stmt.kind is Use || stmt.kind is FromUse || stmt.kind is EmptyStatement) ==> r->Ok_0 is None, //# C07 statement.imports_and_empty_statements_disappear
             r is Ok && r->Ok_0 is Some && r->Ok_0->Some_0 is Blob ==> fields_tys(r->Ok_0->Some_0->Blob_fields@, final(self).variables@.len() as int), //# C07 statement.field_types_of_a_blob_declaration_are_translatable
             r is Ok && r->Ok_0 is Some && r->Ok_0->Some_0 is Enum ==> fields_tys(r->Ok_0->Some_0->Enum_variants@, final(self).variables@.len() as int), //# C07 statement.variant_types_of_an_enum_declaration_are_translatable
             r is Err ==> r->Err_0.len() >= 1, //# C07 statement.an_error_result_is_never_an_empty_list
